@@ -1,4 +1,4 @@
-import NitroVerif.Lemmas.CheckOp
+import NitroVerif.Lemmas.CheckOpArgs
 /-!
 # C03 — `check` accepts no operation that violates an implemented validation rule
 
@@ -17,7 +17,10 @@ open NitroVerif.Gql NitroVerif.CheckCommon NitroVerif.Valid
 
 def exSchema : Schema := ⟨[
   .typeDef { kind := .scalar, name := "Int" },
+  .typeDef { kind := .scalar, name := "Float" },
   .typeDef { kind := .scalar, name := "String" },
+  .typeDef { kind := .scalar, name := "Boolean" },
+  .typeDef { kind := .scalar, name := "ID" },
   .typeDef { kind := .object, name := "Query",
              fields := [{ name := "a", ty := .named "Int" {} },
                         { name := "f", args := [{ name := "x", ty := .nonNull (.named "Int" {}) }], ty := .named "Query" {} }] }]⟩
@@ -31,7 +34,8 @@ def exDoc : Doc := [
                   (some [.field none "a" {} [] [] none, .spread "F" {} [] {}])] },
   .frag { name := "F", cond := "Query", sel := [.field none "a" {} [] [] none] }]
 
-/-- the hypothesis of every theorem below is satisfiable by a non-trivial document -/
+/-- the hypotheses of every theorem below are satisfiable by a non-trivial schema and document -/
+example : SchemaValid exSchema := by decide
 example : checkOp exSchema exDoc = [] := by decide
 
 /-- and it is not trivially true: a duplicated operation name is reported -/
@@ -119,6 +123,226 @@ theorem C03_fragment_definition_targets (S : Schema) (D : Doc) (h : checkOp S D 
     simp only [ht] at hb
     cases hk : t.kind <;> simp_all [directFields]
 
+/-! ### selection sets: every selection set of the document is visited with its correct type in scope
+(`Lemmas/CheckOpWalk.lean`, `CheckOpReach.lean`, `CheckOpVisited.lean`) -/
+
+/-- 5.3.1 Field Selections: if the checker reports nothing, every field selected anywhere in the document
+    (operations and ALL fragment definitions, at any depth) is defined on the type in scope. -/
+theorem C03_rule_5_3_1 (S : Schema) (D : Doc) (hS : SchemaValid S) (h : checkOp S D = []) : rule_5_3_1 S D = true := by
+  unfold rule_5_3_1
+  rw [List.all_eq_true]
+  intro ps hps
+  obtain ⟨A, k, seen, vars, hA, hl⟩ := all_visited h (schemaValid_noReserved hS) ps hps
+  obtain ⟨p, s⟩ := ps
+  cases p with
+  | none => exact absurd hl (by simp [LocalFact])
+  | some t =>
+    cases s with
+    | field al name namePos args dirs sel =>
+      simp only [LocalFact] at hl
+      obtain ⟨root, fields, hn, hf, fd, hfd, _⟩ := hl
+      simp [fieldDef?_eq_find (schemaValid_noReserved hS) hn hf, hfd]
+    | spread => rfl
+    | inline => rfl
+
+/-- 5.3.3 Leaf Field Selections: if the checker reports nothing, every selected field of scalar or enum type
+    has no sub-selection and every selected field of object, interface or union type has one. -/
+theorem C03_rule_5_3_3 (S : Schema) (D : Doc) (hS : SchemaValid S) (h : checkOp S D = []) : rule_5_3_3 S D = true := by
+  unfold rule_5_3_3
+  rw [List.all_eq_true]
+  intro ps hps
+  obtain ⟨A, k, seen, vars, hA, hl⟩ := all_visited h (schemaValid_noReserved hS) ps hps
+  obtain ⟨p, s⟩ := ps
+  cases p with
+  | none => exact absurd hl (by simp [LocalFact])
+  | some t =>
+    cases s with
+    | field al name namePos args dirs sel =>
+      simp only [LocalFact] at hl
+      obtain ⟨root, fields, hn, hf, fd, hfd, _, _, ft, hft, hsel⟩ := hl
+      simp only [fieldDef?_eq_find (schemaValid_noReserved hS) hn hf, hfd, Schema.kindOf?, hft, Option.map_some]
+      unfold directFields at hsel
+      cases hk : ft.kind <;> simp [hk, isLeafKind, isCompositeKind] at hsel ⊢ <;> simp [hsel]
+    | spread => rfl
+    | inline => rfl
+
+/-- 5.5.1.2 Fragment Spread Type Existence: if the checker reports nothing, the type condition of every fragment
+    definition and of every inline fragment is a type of the schema. -/
+theorem C03_rule_5_5_1_2 (S : Schema) (D : Doc) (hS : SchemaValid S) (h : checkOp S D = []) : rule_5_5_1_2 S D = true := by
+  unfold rule_5_5_1_2
+  rw [List.all_eq_true]
+  intro c hc
+  obtain ⟨ct, hct, _⟩ := typeConditions_ok hS h c hc
+  simp [hct]
+
+/-- 5.5.1.3 Fragments on Composite Types: if the checker reports nothing, every type condition is an object,
+    interface or union type. -/
+theorem C03_rule_5_5_1_3 (S : Schema) (D : Doc) (hS : SchemaValid S) (h : checkOp S D = []) : rule_5_5_1_3 S D = true := by
+  unfold rule_5_5_1_3
+  rw [List.all_eq_true]
+  intro c hc
+  obtain ⟨ct, hct, hd⟩ := typeConditions_ok hS h c hc
+  simp [Schema.kindOf?, hct, directFields_isSome_composite hd]
+
+/-- 5.5.2.1 Fragment Spread Target Defined: if the checker reports nothing, every fragment spread anywhere in
+    the document names a fragment the document defines. -/
+theorem C03_rule_5_5_2_1 (S : Schema) (D : Doc) (hS : SchemaValid S) (h : checkOp S D = []) : rule_5_5_2_1 S D = true := by
+  unfold rule_5_5_2_1
+  rw [List.all_eq_true]
+  intro ps hps
+  obtain ⟨A, k, seen, vars, hA, hl⟩ := all_visited h (schemaValid_noReserved hS) ps hps
+  obtain ⟨p, s⟩ := ps
+  cases s with
+  | field => rfl
+  | inline => rfl
+  | spread name namePos dirs pos =>
+    cases p with
+    | none => exact absurd hl (by simp [LocalFact])
+    | some t =>
+      simp only [LocalFact] at hl
+      obtain ⟨root, fields, _, hf, _, hq⟩ := hl
+      obtain ⟨_, f, _, _, hm, _⟩ := handler_quiet hA hf hq
+      simp [frag?_eq_fragMap (accepted_nodup h), hm]
+
+/-- 5.5.2.2 Fragment Spreads Must Not Form Cycles: if the checker reports nothing, no fragment definition reaches
+    itself through spreads (the seen-stack argument: the walk of a fragment's selection set has the fragment's name
+    on the stack, the stack only grows along spreads, and a spread of a name on the stack is a diagnostic). -/
+theorem C03_rule_5_5_2_2 (S : Schema) (D : Doc) (hS : SchemaValid S) (h : checkOp S D = []) : rule_5_5_2_2 S D = true := by
+  unfold rule_5_5_2_2
+  rw [List.all_eq_true]
+  intro f hf
+  rw [frags_eq] at hf
+  obtain ⟨A, vars, seen, hA, hmem, _, hq⟩ := frag_walked h (schemaValid_noReserved hS) hf
+  cases hc : (Valid.reachable D f.sel).contains f.name with
+  | false => rfl
+  | true =>
+    exfalso
+    have hr := reachable_sound (accepted_nodup h) (by simpa using hc : f.name ∈ Valid.reachable D f.sel)
+    obtain ⟨hno, _⟩ := reach_walked hA (schemaValid_noReserved hS) (accepted_condsDefined h) hq hr
+    have : seen.contains f.name = true := by simpa using hmem
+    rw [this] at hno; cases hno
+
+/-! ### directives at every location, required arguments, applicability of spreads (`Lemmas/CheckOpSites.lean`, `CheckOpApply.lean`) -/
+
+/-- 5.7.1 Directives Are Defined: if the checker reports nothing, every directive applied anywhere in the
+    document (operations, variable definitions, fields, fragment spreads, inline fragments, fragment
+    definitions) is defined in the schema. -/
+theorem C03_rule_5_7_1 (S : Schema) (D : Doc) (hS : SchemaValid S) (h : checkOp S D = []) : rule_5_7_1 S D = true := by
+  unfold rule_5_7_1
+  rw [List.all_eq_true]
+  intro site hs
+  obtain ⟨A, vars, _, hfacts, _⟩ := dirSites_checked hS h site hs
+  rw [List.all_eq_true]
+  intro d hd
+  obtain ⟨dd, hdd, _⟩ := hfacts d hd
+  simp [hdd]
+
+/-- 5.7.2 Directives Are in Valid Locations: if the checker reports nothing, every directive applied anywhere
+    in the document is declared for the location it is applied at. -/
+theorem C03_rule_5_7_2 (S : Schema) (D : Doc) (hS : SchemaValid S) (h : checkOp S D = []) : rule_5_7_2 S D = true := by
+  unfold rule_5_7_2
+  rw [List.all_eq_true]
+  intro site hs
+  obtain ⟨A, vars, _, hfacts, _⟩ := dirSites_checked hS h site hs
+  rw [List.all_eq_true]
+  intro d hd
+  obtain ⟨dd, hdd, hl, _⟩ := hfacts d hd
+  simp only [hdd]; exact hl
+
+/-- 5.7.3 Directives Are Unique per Location: if the checker reports nothing, no non-repeatable directive is
+    applied twice at the same location. -/
+theorem C03_rule_5_7_3 (S : Schema) (D : Doc) (hS : SchemaValid S) (h : checkOp S D = []) : rule_5_7_3 S D = true := by
+  unfold rule_5_7_3
+  rw [List.all_eq_true]
+  intro site hs
+  obtain ⟨A, vars, _, _, hnd⟩ := dirSites_checked hS h site hs
+  exact hnd
+
+/-- 5.4.2.1 Required Arguments: if the checker reports nothing, every field and directive of the document is
+    given all its required arguments (non-null type, no default value). -/
+theorem C03_rule_5_4_2_1 (S : Schema) (D : Doc) (hS : SchemaValid S) (h : checkOp S D = []) : rule_5_4_2_1 S D = true := by
+  unfold rule_5_4_2_1
+  rw [List.all_eq_true]
+  intro site hs
+  obtain ⟨A, vars, pos, hA, hq⟩ := argSites_checked hS h site hs
+  rw [List.all_eq_true]
+  intro d hd
+  cases hreq : (d.ty.isNonNull && d.default.isNone) with
+  | false => simp
+  | true => simpa using (checkArguments_quiet hA hq).1 d hd hreq
+
+/-- 5.5.2.3 Fragment Spread Is Possible: if the checker reports nothing, for every fragment spread and inline
+    fragment of the document the possible types of the type in scope and of the fragment's type condition
+    overlap. -/
+theorem C03_rule_5_5_2_3 (S : Schema) (D : Doc) (hS : SchemaValid S) (h : checkOp S D = []) : rule_5_5_2_3 S D = true := by
+  unfold rule_5_5_2_3
+  rw [List.all_eq_true]
+  intro ps hps
+  obtain ⟨A, k, seen, vars, hA, hl⟩ := all_visited h (schemaValid_noReserved hS) ps hps
+  obtain ⟨p, s⟩ := ps
+  cases p with
+  | none => exact absurd hl (by simp [LocalFact])
+  | some t =>
+    simp only [LocalFact] at hl
+    obtain ⟨root, fields, hn, hf, hl⟩ := hl
+    cases s with
+    | field => rfl
+    | spread name namePos dirs pos =>
+      obtain ⟨_, hq⟩ := hl
+      obtain ⟨_, f, _, _, hm, _, hrest⟩ := handler_quiet hA hf hq
+      obtain ⟨ct, hct⟩ := accepted_condsDefined h f (fragMap_mem hm).1
+      simp only [frag?_eq_fragMap (accepted_nodup h), hm]
+      exact applicability_canApply hA hn hct (hrest ct hct).1
+    | inline cond dirs ss pos =>
+      cases cond with
+      | none => rfl
+      | some cc =>
+        obtain ⟨c, cp⟩ := cc
+        obtain ⟨_, ct, hct, hq, _⟩ := hl
+        exact applicability_canApply hA hn hct hq
+
+/-! ### argument names (`Lemmas/CheckOpArgs.lean`: the unknown-argument test counts matched definitions) -/
+
+/-- 5.4.1 Argument Names: if the checker reports nothing, every argument given to a field or a directive is
+    defined for it. -/
+theorem C03_rule_5_4_1 (S : Schema) (D : Doc) (hS : SchemaValid S) (h : checkOp S D = []) : rule_5_4_1 S D = true := by
+  unfold rule_5_4_1
+  rw [List.all_eq_true]
+  intro site hs
+  obtain ⟨A, vars, pos, hA, hq⟩ := argSites_checked hS h site hs
+  rw [List.all_eq_true]
+  intro a ha
+  exact (checkArguments_names hA hq).2 (argSites_defs_nodup hS D site hs) a ha
+
+/-- 5.4.2 Argument Uniqueness: if the checker reports nothing, no field or directive of the document is given
+    two arguments with the same name. -/
+theorem C03_rule_5_4_2 (S : Schema) (D : Doc) (hS : SchemaValid S) (h : checkOp S D = []) : rule_5_4_2 S D = true := by
+  unfold rule_5_4_2
+  rw [List.all_eq_true]
+  intro as has
+  rcases List.mem_append.mp has with has | has
+  · simp only [rule_5_4_2.fieldArgSitesAll, List.mem_filterMap] at has
+    obtain ⟨ps, hps, hsite⟩ := has
+    obtain ⟨A, k, seen, vars, hA, hl⟩ := all_visited h (schemaValid_noReserved hS) ps hps
+    obtain ⟨p, s⟩ := ps
+    cases s with
+    | spread => simp at hsite
+    | inline => simp at hsite
+    | field al name namePos args dirs sel =>
+      simp only [Option.some.injEq] at hsite
+      subst hsite
+      cases p with
+      | none => exact absurd hl (by simp [LocalFact])
+      | some t =>
+        simp only [LocalFact] at hl
+        obtain ⟨_, _, _, _, fd, _, _, hq, _⟩ := hl
+        exact (checkArguments_names hA hq).1
+  · simp only [rule_5_4_2.dirArgSitesAll, List.mem_flatMap, List.mem_map] at has
+    obtain ⟨site, hsite, d, hd, rfl⟩ := has
+    obtain ⟨A, vars, hA, hfacts, _⟩ := dirSites_checked hS h site hsite
+    obtain ⟨dd, _, _, hq⟩ := hfacts d hd
+    exact (checkArguments_names hA hq).1
+
 /-! ### directives on operations and variable definitions (part of 5.7.1 – 5.7.3) -/
 
 /-- 5.7.1 – 5.7.3 on the definition-level directive sites of operations: if the checker reports nothing, the
@@ -144,48 +368,50 @@ theorem C03_directives_on_operations (S : Schema) (D : Doc) (h : checkOp S D = [
 /-! ### conjunction -/
 
 /-- the rules whose soundness theorem is proved in this file -/
-def ProvedRules : List String := ["5.2.1.1", "5.2.2.1", "5.5.1.1", "5.8.1", "5.8.2"]
+def ProvedRules : List String :=
+  ["5.2.1.1", "5.2.2.1", "5.5.1.1", "5.8.1", "5.8.2", "5.3.1", "5.3.3", "5.5.1.2", "5.5.1.3", "5.5.2.1", "5.5.2.2", "5.7.1", "5.7.2", "5.7.3", "5.4.2.1", "5.5.2.3", "5.4.1", "5.4.2"]
 
 /-- every proved rule is one of the implemented rules of the C03 statement -/
 example : ∀ r ∈ ProvedRules, r ∈ ImplementedRules := by decide
 
-/-- C03 for the proved rules: a document the checker accepts satisfies each of them -/
-theorem C03_accepts_only_valid_proved (S : Schema) (D : Doc) (h : checkOp S D = []) :
+/-- C03 for the proved rules: a document the checker accepts (against a valid schema) satisfies each of them -/
+theorem C03_accepts_only_valid_proved (S : Schema) (D : Doc) (hS : SchemaValid S) (h : checkOp S D = []) :
     ∀ r ∈ ProvedRules, Holds r S D := by
   intro r hr f hf
   simp only [ProvedRules, List.mem_cons, List.not_mem_nil, or_false] at hr
   simp only [ruleTable, extraRuleTable, List.cons_append, List.nil_append, List.mem_cons, Prod.mk.injEq,
     List.not_mem_nil, or_false] at hf
-  rcases hr with rfl | rfl | rfl | rfl | rfl <;> simp at hf <;> subst hf
+  rcases hr with rfl | rfl | rfl | rfl | rfl | rfl | rfl | rfl | rfl | rfl | rfl | rfl | rfl | rfl | rfl | rfl | rfl | rfl <;> simp at hf <;> subst hf
   · exact C03_rule_5_2_1_1 S D h
   · exact C03_rule_5_2_2_1 S D h
   · exact C03_rule_5_5_1_1 S D h
   · exact C03_rule_5_8_1 S D h
   · exact C03_rule_5_8_2 S D h
+  · exact C03_rule_5_3_1 S D hS h
+  · exact C03_rule_5_3_3 S D hS h
+  · exact C03_rule_5_5_1_2 S D hS h
+  · exact C03_rule_5_5_1_3 S D hS h
+  · exact C03_rule_5_5_2_1 S D hS h
+  · exact C03_rule_5_5_2_2 S D hS h
+  · exact C03_rule_5_7_1 S D hS h
+  · exact C03_rule_5_7_2 S D hS h
+  · exact C03_rule_5_7_3 S D hS h
+  · exact C03_rule_5_4_2_1 S D hS h
+  · exact C03_rule_5_5_2_3 S D hS h
+  · exact C03_rule_5_4_1 S D hS h
+  · exact C03_rule_5_4_2 S D hS h
 
 /-
 OPEN — carried by K/O only (stated, not proved; K ties the model to the code, O searches the real code for a
 violation of each of them with labelled mutations at every position class):
 
 theorem C03_rule_5_2_3_1 : checkOp S D = [] → rule_5_2_3_1 S D = true     -- single subscription root field
-theorem C03_rule_5_3_1   : checkOp S D = [] → rule_5_3_1 S D = true       -- fields exist on the type in scope
-theorem C03_rule_5_3_3   : SchemaValid S → checkOp S D = [] → rule_5_3_3 S D = true   -- leaf / composite selections
-theorem C03_rule_5_4_1   : checkOp S D = [] → rule_5_4_1 S D = true       -- argument names
-theorem C03_rule_5_4_2_1 : checkOp S D = [] → rule_5_4_2_1 S D = true     -- required arguments
 theorem C03_rule_5_6_1   : SchemaValid S → checkOp S D = [] → rule_5_6_1 S D = true   -- values of correct type
 theorem C03_rule_5_6_2   : checkOp S D = [] → rule_5_6_2 S D = true       -- input object field names
 theorem C03_rule_5_6_3   : SchemaValid S → checkOp S D = [] → rule_5_6_3 S D = true   -- input object field uniqueness
 theorem C03_rule_5_6_4   : checkOp S D = [] → rule_5_6_4 S D = true       -- input object required fields
 theorem C03_rule_5_8_3   : checkOp S D = [] → rule_5_8_3 S D = true       -- variable uses defined
 theorem C03_rule_5_8_5   : checkOp S D = [] → rule_5_8_5 S D = true       -- variable usages allowed
-theorem C03_rule_5_5_1_2 : checkOp S D = [] → rule_5_5_1_2 S D = true     -- (inline-fragment part; definitions: proved above)
-theorem C03_rule_5_5_1_3 : checkOp S D = [] → rule_5_5_1_3 S D = true     -- (inline-fragment part; definitions: proved above)
-theorem C03_rule_5_5_2_1 : checkOp S D = [] → rule_5_5_2_1 S D = true     -- spread target defined
-theorem C03_rule_5_5_2_2 : checkOp S D = [] → rule_5_5_2_2 S D = true     -- no fragment cycles
-theorem C03_rule_5_5_2_3 : SchemaValid S → checkOp S D = [] → rule_5_5_2_3 S D = true -- spread possible
-theorem C03_rule_5_7_1   : checkOp S D = [] → rule_5_7_1 S D = true       -- directives defined (operation / variable-definition sites: proved above)
-theorem C03_rule_5_7_2   : checkOp S D = [] → rule_5_7_2 S D = true       -- directives in valid locations
-theorem C03_rule_5_7_3   : checkOp S D = [] → rule_5_7_3 S D = true       -- directives unique per location
 theorem C03_accepts_only_valid : SchemaValid S → checkOp S D = [] → ∀ r ∈ ImplementedRules, Holds r S D
 
 Proof plan for the selection-set rules (not finished in the budget): (A) local soundness of the structural
